@@ -82,6 +82,18 @@ impl CliResult {
         v.sort();
         v
     }
+    /// `file:line: message` of a Rust panic printed by the command, if any.
+    pub fn panic_line(&self) -> String {
+        let mut it = self.stderr.lines();
+        while let Some(l) = it.next() {
+            if let Some(p) = l.find("panicked at ") {
+                let loc = l[p + 12..].trim_end_matches(':').to_string();
+                let msg: String = it.next().unwrap_or("").chars().take(80).collect();
+                return format!("{loc}: {msg}");
+            }
+        }
+        String::new()
+    }
     pub fn tail(&self, n: usize) -> String {
         let t: Vec<&str> = self.stderr.lines().collect();
         t[t.len().saturating_sub(n)..].join("\n")
@@ -294,7 +306,7 @@ impl Workspace {
             xdg,
             bin: vcore::util::repo_bin("veryl"),
             journal: RefCell::new(vec![]),
-            timeout: Duration::from_secs(120),
+            timeout: Duration::from_secs(300),
         };
         ws.log("#!/bin/bash\n# reproducer: run in an empty directory; VERYL=path of the veryl binary\nset -u\nR=$PWD\nexport XDG_CACHE_HOME=$R/xdg NO_GRAPHICS=1\nVERYL=${VERYL:-veryl}");
         ws.log(&format!("mkdir -p $R/w/{project_name} $R/xdg; cd $R/w/{project_name}"));
